@@ -504,6 +504,41 @@ def decide(cond):
         return (not val) if flip else val
 
 
+def assume(cond):
+    """constrain the current path with `cond` (a Bool term or SymBool) without forking"""
+    cond = cond.t if isinstance(cond, SymBool) else cond
+    if cond is True or cond is T.TRUE:
+        return
+    if cond is False or cond is T.FALSE:
+        raise InfeasiblePath()
+    ctx = _current[0]
+    if ctx is None:
+        raise SymbolicEscape("assume outside an exploration")
+    with ctx.lock:
+        base, want = (cond.args[0], False) if cond.op == "not" else (cond, True)
+        hit = ctx.decisions.get(base.id)
+        if hit is not None:
+            if hit[1] != want:
+                raise InfeasiblePath()
+            return
+        pc = [t if val else T.not_(t) for (t, val) in ctx.decisions.values()]
+        if _feasible[0](pc + [cond]) is False:
+            raise InfeasiblePath()
+        ctx.decisions[base.id] = (base, want)
+        ctx.order.append((base, want, False))
+
+
+def fresh(prefix, integer=False):
+    """a fresh symbol of the current path (deterministic name: the n-th fresh symbol of the run); integer symbols
+    are declared Int in the solver (names starting with int$)"""
+    ctx = _current[0]
+    if ctx is None:
+        raise SymbolicEscape("fresh symbol outside an exploration")
+    with ctx.lock:
+        ctx.nfresh = getattr(ctx, "nfresh", 0) + 1
+        return SymReal(T.var("%s%s$%d" % ("int$" if integer else "aux$", prefix, ctx.nfresh)))
+
+
 class SolverUnknown(BaseException):
     pass
 
